@@ -37,6 +37,9 @@
 // retried alone, and only a second death is reported "fatal:<stage>:<file>:<function>:<message>".
 // To bound the cost of a hang that many inputs reach, after 3 confirmed timeouts at one site
 // further first-round expiries at the same site are reported "timeout-unretried:<site>".
+// Inputs of generator p (tiny, no checker stage) have 0.5 s of CPU in the first round and 1.5 s in
+// the retry; after 12 first-round expiries at one site the remaining p inputs are skipped
+// ("skipped:site-cap:<site>").
 //
 // Corpus / -input file format (corpus/C03.front.txt): one input per line, either
 // "text:<escaped>" (escapes \\ \n \t \r \xHH, everything else literal) or "hex:<hex bytes>";
@@ -299,7 +302,21 @@ type job struct {
 	id     string
 	src    string
 	stages string
+	cpu    float64 // first-round CPU budget in seconds (0 = default 2 s); the retry gets three times as much
 }
+
+func (j job) budget() float64 {
+	if j.cpu > 0 {
+		return j.cpu
+	}
+	return 2.0
+}
+
+// siteCap: after this many first-round expiries at ONE site the remaining inputs of generator p are
+// not run any more ("skipped:site-cap:<site>"): a hang in a scanner is reached by hundreds of
+// prefixes and every expiry costs a worker restart. The run fails anyway (the expiries are retried
+// and reported); the skipped inputs are counted in the evidence.
+const siteCap = 12
 
 type wproc struct {
 	cmd    *exec.Cmd
@@ -602,21 +619,41 @@ func runAll(jobs []job) []string {
 	var wg sync.WaitGroup
 	var mu sync.Mutex
 	confirmed := map[string]int{} // site -> confirmed timeouts (filled in the retry phase)
+	expired := map[string]int{}   // site -> first-round expiries
 	for k := 0; k < K; k++ {
 		wg.Add(1)
 		go func() {
 			defer wg.Done()
 			var w *wproc
 			for j := range ch {
+				if j.id[0] == 'p' {
+					capped := ""
+					mu.Lock()
+					for site, c := range expired {
+						if c >= siteCap && (capped == "" || site < capped) {
+							capped = site
+						}
+					}
+					mu.Unlock()
+					if capped != "" {
+						mu.Lock()
+						first[j.idx] = outcome{"done", "skipped:site-cap:" + capped}
+						mu.Unlock()
+						continue
+					}
+				}
 				if w == nil {
 					w = startWorker()
 				}
-				o := runOne(w, j, 2.0, 20*time.Second)
+				o := runOne(w, j, j.budget(), 20*time.Second)
 				if o.kind != "done" {
 					w = nil
 				}
 				mu.Lock()
 				first[j.idx] = o
+				if o.kind == "timeout" {
+					expired[o.obs]++
+				}
 				mu.Unlock()
 			}
 			if w != nil {
@@ -658,7 +695,7 @@ func runAll(jobs []job) []string {
 			defer wg2.Done()
 			defer func() { <-sem }()
 			w := startWorker()
-			o := runOne(w, jobs[i], 6.0, 60*time.Second)
+			o := runOne(w, jobs[i], 3*jobs[i].budget(), 60*time.Second)
 			switch o.kind {
 			case "done":
 				w.stop()
@@ -1544,6 +1581,7 @@ func driverMain(o *hx.Opts) {
 				if !seenP[s] {
 					seenP[s] = true
 					add("p", s, "lpd")
+					jobs[len(jobs)-1].cpu = 0.5 // <= 401 bytes, no checker: 30 us of work
 					np++
 				}
 			}
